@@ -497,4 +497,4 @@ pub fn random_env(rng: &mut Rng) -> Vec<(String, String)> {
 
 /// File names a user's file may have; the name must not matter. (No leading/trailing blanks: `-f -` trims the
 /// path it reads, by design. No leading hyphen: clap would take it for an option.)
-pub const FILE_NAMES: &[&str] = &["cases.txt", "$HOME.txt", "~tilde.txt", "%41.txt", "back\\slash.txt", "with space.txt", "ünïcödé-日本.txt", "a,b;c.txt", "x=y&z.txt", "tab\tin name.txt", "quote'\"name.txt", "ends-with-quote'", "\"quoted\"", "'single'", ".hidden", "UPPER.TXT", "no-extension"];
+pub const FILE_NAMES: &[&str] = &["cases.txt", "line\nbreak.txt", "cr\rname.txt", "$HOME.txt", "~tilde.txt", "%41.txt", "back\\slash.txt", "with space.txt", "ünïcödé-日本.txt", "a,b;c.txt", "x=y&z.txt", "tab\tin name.txt", "quote'\"name.txt", "ends-with-quote'", "\"quoted\"", "'single'", ".hidden", "UPPER.TXT", "no-extension"];
